@@ -220,6 +220,17 @@ class Repo:
                 return c, "alias", ci.aliases[attr]
         return None
 
+    def module_constant(self, module, name):
+        """value expression of a module-level `NAME = <expr>` (assigned exactly once), else None"""
+        m = self.module(module)
+        found = []
+        for n in Module._toplevel(m.tree.body):
+            if isinstance(n, ast.Assign) and any(isinstance(t, ast.Name) and t.id == name for t in n.targets):
+                found.append(n.value)
+            elif isinstance(n, ast.AnnAssign) and isinstance(n.target, ast.Name) and n.target.id == name and n.value is not None:
+                found.append(n.value)
+        return found[0] if len(found) == 1 else None
+
     def function(self, module, name):
         m = self.module(module)
         if name not in m.functions:
@@ -237,6 +248,43 @@ class Repo:
         for n in sorted(names or self.modules):
             h.update(self.modules[n].digest.encode())
         return h.hexdigest()[:16]
+
+
+def dict_entries(node):
+    """[(key, value expr)] of a table written as dict(k=v, ...), {"k": v, ...} or dict({...}); None when the
+    expression is neither (string keys only)."""
+    if isinstance(node, ast.Call) and ast.unparse(node.func) in ("dict", "OrderedDict", "collections.OrderedDict"):
+        out = []
+        if len(node.args) == 1:
+            inner = dict_entries(node.args[0])
+            if inner is None:
+                return None
+            out += inner
+        elif node.args:
+            return None
+        for k in node.keywords:
+            if k.arg is None:
+                inner = dict_entries(k.value)
+                if inner is None:
+                    return None
+                out += inner
+            else:
+                out.append((k.arg, k.value))
+        return out
+    if isinstance(node, ast.Dict):
+        out = []
+        for k, v in zip(node.keys, node.values):
+            if k is None:
+                inner = dict_entries(v)
+                if inner is None:
+                    return None
+                out += inner
+            elif isinstance(k, ast.Constant) and isinstance(k.value, str):
+                out.append((k.value, v))
+            else:
+                return None
+        return out
+    return None
 
 
 def norm(node_or_src, limit=160):
